@@ -515,6 +515,23 @@ func genInitTree(rng *Rng, hostile bool) *TNode {
 	return tdir(0o755, map[string]*TNode{"w": w, "secret": tfile("secret", 0o600)})
 }
 
+// updownTarget: no ".." after a name (".." first, then names; "." and empty segments anywhere)
+func updownTarget(t string) bool {
+	seenName := false
+	for _, c := range strings.Split(t, "/") {
+		switch c {
+		case "", ".":
+		case "..":
+			if seenName {
+				return false
+			}
+		default:
+			seenName = true
+		}
+	}
+	return true
+}
+
 // ---------- physical resolution inside the arena (for C04) ----------
 
 // resolveIn follows path (relative to the chroot root, given as components
@@ -870,6 +887,11 @@ func runUnpackCase(c *UnpackCase, work string) (*UnpackObs, []Violation) {
 				if lexAbs == pre || strings.HasPrefix(lexAbs, strings.TrimSuffix(pre, "/")+"/") {
 					okAllowed = true
 				}
+				// ... or the place it leads to is allow-listed (reached through an allow-listed link)
+				physAbs := "/" + strings.Join(phys, "/")
+				if physAbs == strings.TrimSuffix(pre, "/") || strings.HasPrefix(physAbs, strings.TrimSuffix(pre, "/")+"/") {
+					okAllowed = true
+				}
 			}
 			if okAllowed {
 				continue
@@ -877,7 +899,15 @@ func runUnpackCase(c *UnpackCase, work string) (*UnpackObs, []Violation) {
 			sig := []string{}
 			// signature of the known finding: lexically inside, physically outside through another link
 			lex := path.Clean(path.Join(path.Dir("/"+p), a.Target))
-			if !strings.HasPrefix(a.Target, "/") && (lex == "/"+dstRel || strings.HasPrefix(lex, "/"+dstRel+"/")) {
+			// ... which needs a link target with ".." after a name: for archives without one, containment is a
+			// theorem of the model (C04_links_resolve_inside), so an escape there is never the known finding
+			dotdotAfterName := false
+			for _, e := range c.Entries {
+				if e.Type == "2" && !updownTarget(e.Link) {
+					dotdotAfterName = true
+				}
+			}
+			if dotdotAfterName && !strings.HasPrefix(a.Target, "/") && (lex == "/"+dstRel || strings.HasPrefix(lex, "/"+dstRel+"/")) {
 				sig = append(sig, "link_escapes_only_through_another_link")
 			}
 			vs = append(vs, viol("C04", fmt.Sprintf("after Unpack, link %s -> %q resolves to /%s, outside the destination %s", p, a.Target, strings.Join(phys, "/"), c.Dst), sig...))
